@@ -42,7 +42,9 @@
       sub-template executions - leaves any context of the stack with a different flag than it
       had: only the lexical region of an autoescape tag runs with a changed flag. *)
 From PV Require Import Lib.Bytes Model.Value Model.Doc Model.Exec Model.Filters Model.Api Spec.SpecEsc Spec.SpecTaint.
-From PV Require Import Tie.C02.
+From PV Require Import Spec.SpecTaint2.
+From PV Require Import Tie.C02 Tie.C02b.
+
 Open Scope N_scope.
 
 (* ---------- 1. {{ e }} ---------- *)
@@ -265,3 +267,303 @@ Example C02_witness_end_to_end :
     [123;37;32;102;105;108;116;101;114;32;97;100;100;58;120;32;37;125;123;37;32;101;110;100;102;105;108;116;101;114;32;37;125]
     w_ctx = OOk w_text.
 Proof. vm_compute. split; reflexivity. Qed.
+
+(* ================= the whole node language minus the opt-outs ================= *)
+(* Property C02 - autoescape, in full for the model (continues Props/C02.v).
+
+   In plain words: while autoescaping is on, text that comes from the caller's context - however
+   it is reached, combined, looped over, assigned, passed to macros and includes, returned by
+   macros and block.Super, cycled, or filtered - reaches the output only in HTML-escaped form,
+   unless the template uses one of the opt-outs.  Here: for EVERY template that uses no opt-out,
+   every successful execution writes output that is in escaped form as a whole ([html_clean]:
+   none of the bytes 60 62 34 39, every & starts one of the five entities).
+
+   "Uses no opt-out" is the boolean [ok_template] of Spec/SpecTaint2.v, recursively through the
+   root nodes, all block bodies, parents, macro bodies (defined or imported) and statically
+   included / ssi-parsed templates.  A node is allowed unless it is
+     - {{ e }} / firstof / cycle with FilterApplied(safe) on the printed expression (`safe` deeper
+       inside an expression is harmless in the model: the filter is the identity and marks nothing),
+     - autoescape off,
+     - a filter tag whose chain has a parameter or a filter outside [clean_tag_filters]
+       (safe escape e lower length wordcount integer float).  The tag writes its chain's result
+       raw; C02_filter_tag_param_raw (Props/C02.v) is the known leak for context parameters, and
+       C02b_filter_tag_why_restricted shows that even literal or absent parameters break escaped
+       form for upper, first, truncatechars:4, add:"<",
+     - literal text (text tokens, templatetag, ssi without parsing) containing a byte that would
+       need escaping: the statement is about the WHOLE output being in escaped form, so the
+       template's own text must be (this is the simplification the fragment theorem of C02.v
+       also makes).
+   Everything else is allowed with arbitrary expressions and nesting: if, for, with, set, macro
+   (arguments, defaults, calls inside any expression), import, block / block.Super, extends,
+   include (static; lazy if [lz] - see below; with pairs, only, if_exists), ssi (plain, parsed),
+   autoescape on, spaceless, filter tag as above, firstof, cycle (named, silent, advancing a
+   handle), ifchanged, ifequal, templatetag, widthratio, comment.  (lorem / now have no model:
+   the model answers Unmod, so no successful execution contains them.)
+
+   The caller's context: data only, none of it marked safe ([unmarked_ctx]); the set's globals may
+   also hold macros without opt-outs and values marked safe whose text is in escaped form ([ctx_ok]).
+
+   Lazy includes compile a template at run time.  [ok_template true] allows them, and the theorems
+   then assume [lazy_ok true se]: whatever the set compiles at run time is without opt-outs (the
+   same kind of hypothesis as compiler_wf in Spec/SpecWf.v).  With [ok_template false] (no lazy
+   include anywhere) nothing is assumed: C02_no_raw_context_text_static.
+
+   What the theorems contribute:
+   1. C02_no_raw_context_text (+ _execute for Template.execute, _static, and C02_run_template_clean
+      for the harness entry point Model/Api.v run_template): the main statement.
+   2. C02_template_in_state, C02_nodes_output_clean: the same from ANY state that satisfies the
+      invariant [tclean] (every context of the stack has autoescape on; every value stored in a
+      private or public context or in a cycle handle is unmarked, or marked and clean; stored
+      macros, block bodies, cycle arguments are without opt-outs), and the invariant holds
+      afterwards - so the statement composes, and covers includes / macro bodies run in the middle
+      of an execution.
+   3. C02_eval_marked_is_clean: every expression - macro calls with arguments and defaults,
+      block.Super, lookups, operators, filter chains (also with `safe`) - evaluated in such a
+      state yields a value that is unmarked or clean (this replaces C02_eval_safe_origin_partial,
+      which needed a context without macros), and keeps the invariant.
+      C02_macro_result_clean: a macro call returns a marked string that is in escaped form.
+   4. C02_tag_filters_keep_escaped_form: the filters allowed in a filter tag keep clean values clean.
+   5. Witnesses: the hypotheses are satisfiable by non-trivial instances, also end to end through
+      the lexer and parser.
+
+   Part II - templates whose own text contains markup.  Above, literal text had to consist of
+   bytes that need no escaping, so that the whole output is in escaped form.  For real templates
+   (text with tags and attributes) the statement is: the output is a CONCATENATION OF PIECES OF THE
+   TEMPLATE'S LITERAL TEXT AND OF CHUNKS IN ESCAPED FORM ([pieces lit o], Spec/SpecTaint2.v; [lit]
+   is any decidable set of strings that contains every text token, templatetag content and
+   unparsed ssi content of the template - checked by [ok_template_m lit]; a piece is a contiguous
+   part of such a text, because text tokens are written after white-space trimming).  So every
+   byte of context text reaches the output inside an escaped-form chunk.  [ok_node_m] is [ok_node]
+   with that change and without spaceless (it rewrites text between tags) and without `lower` in a
+   filter tag; the invariant [tclean_m] is [tclean] with "marked values are [pieces]" (macro
+   results now contain markup).
+   6. C02_output_literals_and_escaped (+ _execute, C02_run_template_pieces): the main statement.
+      C02_markup_template_in_state, C02_markup_nodes, C02_markup_eval, C02_markup_macro_result:
+      the compositional forms, as in 2 and 3.
+   7. What [pieces] buys: C02_pieces_no_foreign_byte - a byte that needs escaping and occurs in no
+      literal text of the template does not occur in the output, whatever the context holds;
+      C02_pieces_inert_is_clean - with literal text that needs no escaping, [pieces] is escaped
+      form, i.e. Part II gives Part I's conclusion back.
+   8. Witness: a base template and a child with tags and a quoted attribute, through lexer and
+      parser, rendered over a hostile x. *)
+
+(* ---------- 1. the main statement ---------- *)
+(* Template.ExecuteWriter (buffered) on a fresh stack *)
+Theorem C02_no_raw_context_text : forall lz se globals f nd g t ctx o st',
+  ok_template lz t = true -> ctx_ok lz globals = true -> lazy_ok lz se -> unmarked_ctx ctx = true ->
+  exec_template se globals f (mkM [] nd g) t ctx = (o, Ok st') -> html_clean o = true.
+Proof. exact tie_no_raw_context_text. Qed.
+Print Assumptions C02_no_raw_context_text.
+
+(* Template.execute *)
+Theorem C02_no_raw_context_text_execute : forall lz se globals f nd g t ctx o st',
+  ok_template lz t = true -> ctx_ok lz globals = true -> lazy_ok lz se -> unmarked_ctx ctx = true ->
+  exec_template_unbuffered se globals f (mkM [] nd g) t ctx = (o, Ok st') -> html_clean o = true.
+Proof. exact tie_no_raw_context_text_execute. Qed.
+Print Assumptions C02_no_raw_context_text_execute.
+
+(* no lazy include anywhere: nothing assumed about the compiler *)
+Theorem C02_no_raw_context_text_static : forall se globals f nd g t ctx o st',
+  ok_template false t = true -> ctx_ok false globals = true -> unmarked_ctx ctx = true ->
+  exec_template_unbuffered se globals f (mkM [] nd g) t ctx = (o, Ok st') -> html_clean o = true.
+Proof. exact tie_no_raw_context_text_static. Qed.
+Print Assumptions C02_no_raw_context_text_static.
+
+(* the entry point the correspondence harness uses *)
+Theorem C02_run_template_clean : forall lz w t g ctx o,
+  ok_template lz t = true -> ctx_ok lz (w_globals w) = true -> lazy_ok lz (world_senv w) ->
+  unmarked_ctx ctx = true -> run_template w t g ctx = OOk o -> html_clean o = true.
+Proof. exact tie_run_template_clean. Qed.
+Print Assumptions C02_run_template_clean.
+
+Theorem C02_unmarked_ctx_ok : forall lz ctx, unmarked_ctx ctx = true -> ctx_ok lz ctx = true.
+Proof. exact tie_unmarked_ctx_ok. Qed.
+Print Assumptions C02_unmarked_ctx_ok.
+
+(* ---------- 2. from any state that satisfies the invariant ---------- *)
+Theorem C02_template_in_state : forall lz se globals f st t ctx o st',
+  ctx_ok lz globals = true -> lazy_ok lz se ->
+  tclean lz st -> ok_template lz t = true -> ctx_ok lz ctx = true ->
+  exec_template se globals f st t ctx = (o, Ok st') -> html_clean o = true /\ tclean lz st'.
+Proof. exact tie_template_in_state. Qed.
+Print Assumptions C02_template_in_state.
+
+Theorem C02_nodes_output_clean : forall lz se globals f st ns o st',
+  ctx_ok lz globals = true -> lazy_ok lz se ->
+  tclean lz st -> ok_nodes lz ns = true -> exec_nodes se globals f st ns = (o, Ok st') ->
+  html_clean o = true /\ tclean lz st'.
+Proof. exact tie_nodes_output_clean. Qed.
+Print Assumptions C02_nodes_output_clean.
+
+(* ---------- 3. expressions ---------- *)
+Theorem C02_eval_marked_is_clean : forall lz se globals f st e v st',
+  ctx_ok lz globals = true -> lazy_ok lz se ->
+  tclean lz st -> eval se globals f st e = Ok (v, st') -> tclean lz st' /\ mark_ok v = true.
+Proof. exact tie_eval_clean. Qed.
+Print Assumptions C02_eval_marked_is_clean.
+
+Theorem C02_macro_result_clean : forall lz se globals f st m fi args v st',
+  ctx_ok lz globals = true -> lazy_ok lz se ->
+  tclean lz st -> ok_macro lz m = true -> call_macro se globals f st m fi args = Ok (v, st') ->
+  tclean lz st' /\ vsafe v = true /\ exists out, vv v = VStr out /\ html_clean out = true.
+Proof. exact tie_macro_result_clean. Qed.
+Print Assumptions C02_macro_result_clean.
+
+(* ---------- 4. the filter tag ---------- *)
+Theorem C02_tag_filters_keep_escaped_form : forall se name x p r,
+  str_in name clean_tag_filters = true -> val_clean (vv x) = true ->
+  apply_filter_se se name x p = Ok r -> val_clean (vv r) = true.
+Proof. exact tie_tag_filters_keep_clean. Qed.
+Print Assumptions C02_tag_filters_keep_escaped_form.
+
+(* FALSE beyond that list, with no context parameter in sight: over x = <b>& the body {{ x }} writes
+   &lt;b&gt;&amp; and then upper / first / truncatechars:4 / add:"<" leave text that is not in
+   escaped form (a dangling & or a raw <) *)
+Theorem C02b_filter_tag_why_restricted :
+  fst (exec_node w_se [] 20 w_state (NFilterTag [(n_upper, None)] [NVar w_var]))
+    = [38; 76; 84; 59; 66; 38; 71; 84; 59; 38; 65; 77; 80; 59] /\
+  html_clean [38; 76; 84; 59; 66; 38; 71; 84; 59; 38; 65; 77; 80; 59] = false /\
+  fst (exec_node w_se [] 20 w_state (NFilterTag [(n_first, None)] [NVar w_var])) = [38] /\
+  html_clean [38] = false /\
+  fst (exec_node w_se [] 20 w_state (NFilterTag [(n_truncatechars, Some (EInt 4))] [NVar w_var])) = [38; 46; 46; 46] /\
+  html_clean [38; 46; 46; 46] = false /\
+  fst (exec_node w_se [] 20 w_state (NFilterTag [(n_add, Some (EStr [60]))] [NVar w_var])) = w_escaped ++ [60] /\
+  html_clean (w_escaped ++ [60]) = false.
+Proof. exact tie_filter_tag_not_clean. Qed.
+Print Assumptions C02b_filter_tag_why_restricted.
+
+(* ---------- 5. non-vacuity ---------- *)
+(* a child template extending a parent: a macro with a default taken from the context, its call,
+   the result combined with raw text and printed again, block.Super, a static include with
+   `with ... only`, spaceless, a filter tag, a cycle over x and block.Super.  It is without
+   opt-outs, the context (x = <b>&) is unmarked, the run succeeds, and the output contains the
+   escaped x and is in escaped form (as the theorem says) *)
+Example C02b_witness_template :
+  ok_template false w2_child = true /\ unmarked_ctx w_ctx = true /\
+  match exec_template_unbuffered w_se [] 60 (mkM [] [] (mkG 5 [])) w2_child w_ctx with
+  | (o, Ok _) => contains w_escaped o && html_clean o && Nat.ltb 100 (length o)
+  | _ => false
+  end = true.
+Proof. vm_compute. repeat split; reflexivity. Qed.
+
+(* a state that satisfies the invariant while holding a macro, a marked value and raw data; the
+   macro call m(x) in it yields a marked value (so the conclusion of C02_eval_marked_is_clean is
+   not about unmarked values only), and x itself is the raw text *)
+Example C02b_witness_state :
+  tclean false w2_state /\
+  match eval w_se [] 30 w2_state (EFilt (EVar [PIdent w2_m (Some [w_var])]) []) with
+  | Ok (v, _) => vsafe v && val_clean (vv v)
+  | _ => false
+  end = true /\
+  match eval w_se [] 30 w2_state w_var with
+  | Ok (v, _) => negb (vsafe v) && negb (val_clean (vv v))
+  | _ => false
+  end = true.
+Proof. vm_compute. repeat split; reflexivity. Qed.
+
+(* lazy includes: a set without loaders satisfies the hypothesis about run-time compiles *)
+Example C02b_witness_lazy : lazy_ok true w_se.
+Proof. exact tie_lazy_ok_no_loader. Qed.
+
+(* through the lexer and parser: the child source (a string template) extends "base" from a
+   loader and includes "inc"; what the parser builds is without opt-outs, and rendering with
+   x = <b>& succeeds with output in escaped form that contains the escaped x *)
+Example C02b_witness_end_to_end :
+  match compile_src (world_senv e2e_world) big_fuel [60; 115; 116; 114; 105; 110; 103; 62] true e2e_child g0 with
+  | Ok (t, _) => ok_template false t
+  | _ => false
+  end = true /\
+  match api_render_string e2e_world e2e_child w_ctx with
+  | OOk o => contains w_escaped o && html_clean o && Nat.ltb 100 (length o)
+  | _ => false
+  end = true.
+Proof. vm_compute. split; reflexivity. Qed.
+
+(* ================= Part II: templates whose own text contains markup ================= *)
+(* ---------- 6. the main statement ---------- *)
+Theorem C02_output_literals_and_escaped : forall lit lz se globals f nd g t ctx o st',
+  ok_template_m lit lz t = true -> ctx_m lit lz globals -> lazy_m lit lz se -> unmarked_ctx ctx = true ->
+  exec_template se globals f (mkM [] nd g) t ctx = (o, Ok st') -> pieces lit o.
+Proof. exact tie_output_literals_and_escaped. Qed.
+Print Assumptions C02_output_literals_and_escaped.
+
+Theorem C02_output_literals_and_escaped_execute : forall lit lz se globals f nd g t ctx o st',
+  ok_template_m lit lz t = true -> ctx_m lit lz globals -> lazy_m lit lz se -> unmarked_ctx ctx = true ->
+  exec_template_unbuffered se globals f (mkM [] nd g) t ctx = (o, Ok st') -> pieces lit o.
+Proof. exact tie_output_literals_and_escaped_execute. Qed.
+Print Assumptions C02_output_literals_and_escaped_execute.
+
+Theorem C02_run_template_pieces : forall lit lz w t g ctx o,
+  ok_template_m lit lz t = true -> ctx_m lit lz (w_globals w) -> lazy_m lit lz (world_senv w) ->
+  unmarked_ctx ctx = true -> run_template w t g ctx = OOk o -> pieces lit o.
+Proof. exact tie_run_template_pieces. Qed.
+Print Assumptions C02_run_template_pieces.
+
+(* the hypotheses about globals and run-time compiles in their simplest instances *)
+Theorem C02_markup_hypotheses_simple : forall lit lz se ctx,
+  ctx_m lit lz [] /\ lazy_m lit false se /\ (unmarked_ctx ctx = true -> ctx_m lit lz ctx).
+Proof. exact tie_markup_hypotheses_simple. Qed.
+Print Assumptions C02_markup_hypotheses_simple.
+
+Theorem C02_markup_template_in_state : forall lit lz se globals f st t ctx o st',
+  ctx_m lit lz globals -> lazy_m lit lz se ->
+  tclean_m lit lz st -> ok_template_m lit lz t = true -> ctx_m lit lz ctx ->
+  exec_template se globals f st t ctx = (o, Ok st') -> pieces lit o /\ tclean_m lit lz st'.
+Proof. exact tie_markup_template_in_state. Qed.
+Print Assumptions C02_markup_template_in_state.
+
+Theorem C02_markup_nodes : forall lit lz se globals f st ns o st',
+  ctx_m lit lz globals -> lazy_m lit lz se ->
+  tclean_m lit lz st -> ok_nodes_m lit lz ns = true -> exec_nodes se globals f st ns = (o, Ok st') ->
+  pieces lit o /\ tclean_m lit lz st'.
+Proof. exact tie_markup_nodes. Qed.
+Print Assumptions C02_markup_nodes.
+
+Theorem C02_markup_eval : forall lit lz se globals f st e v st',
+  ctx_m lit lz globals -> lazy_m lit lz se ->
+  tclean_m lit lz st -> eval se globals f st e = Ok (v, st') -> tclean_m lit lz st' /\ mark_pieces lit v.
+Proof. exact tie_markup_eval. Qed.
+Print Assumptions C02_markup_eval.
+
+Theorem C02_markup_macro_result : forall lit lz se globals f st m fi args v st',
+  ctx_m lit lz globals -> lazy_m lit lz se ->
+  tclean_m lit lz st -> ok_macro_m lit lz m = true -> call_macro se globals f st m fi args = Ok (v, st') ->
+  tclean_m lit lz st' /\ vsafe v = true /\ exists out, vv v = VStr out /\ pieces lit out.
+Proof. exact tie_markup_macro_result. Qed.
+Print Assumptions C02_markup_macro_result.
+
+(* ---------- 7. what [pieces] buys ---------- *)
+Theorem C02_pieces_no_foreign_byte : forall lit b o,
+  dangerous b = true -> (forall val, lit val = true -> ~ In b val) -> pieces lit o -> ~ In b o.
+Proof. exact tie_pieces_no_foreign_byte. Qed.
+Print Assumptions C02_pieces_no_foreign_byte.
+
+Theorem C02_pieces_inert_is_clean : forall lit o,
+  (forall val, lit val = true -> forallb inert_byte val = true) -> pieces lit o -> html_clean o = true.
+Proof. exact tie_pieces_inert_clean. Qed.
+Print Assumptions C02_pieces_inert_is_clean.
+
+(* ---------- 8. non-vacuity ---------- *)
+(* the child (a string template: a macro that wraps its argument in a b element with a quoted
+   attribute, its call, block.Super inside a p element, the macro's result escaped as a whole by a
+   filter tag) extends a base with html/body/i elements.  Its literal texts are the eight strings
+   of [e2m_lits]; what the parser builds satisfies [ok_template_m]; rendering over the hostile x
+   succeeds; the escaped x is in the output *)
+Example C02b_witness_markup :
+  match compile_src (world_senv e2m_world) big_fuel [60; 115; 116; 114; 105; 110; 103; 62] true e2m_child g0 with
+  | Ok (t, _) => ok_template_m e2m_lit false t
+  | _ => false
+  end = true /\
+  unmarked_ctx e2m_ctx = true /\
+  match api_render_string e2m_world e2m_child e2m_ctx with
+  | OOk o => contains (filter_escape ([39; 34; 62; 60; 38] ++ [115; 99; 114; 105; 112; 116; 62])) o && negb (html_clean o)
+  | _ => false
+  end = true.
+Proof. vm_compute. repeat split; reflexivity. Qed.
+
+(* ... and by C02_run_template_pieces + C02_pieces_no_foreign_byte, since no literal text of that
+   template contains a single quote: no execution of it, over any unmarked context, writes one *)
+Example C02b_witness_markup_no_quote : forall t g ctx o,
+  ok_template_m e2m_lit false t = true -> unmarked_ctx ctx = true ->
+  run_template e2m_world t g ctx = OOk o -> ~ In 39 o.
+Proof. exact tie_e2m_never_writes_quote. Qed.
